@@ -1858,3 +1858,213 @@ func flt_filterPreds(repo string, _ []string) (string, error) {
 	sb.WriteString("].\n")
 	return sb.String(), nil
 }
+
+// ================================================================ filtertotal (C07)
+//
+// Regenerates the partial operations every filter closure performs on a captured node and whether each is guarded:
+//   X.Pos() / X.End()        panics on an empty gogrep.NodeSlice (index 0) and on a typed nil pointer
+//   params.nodeText(X)       guarded inside rulesRunner.nodeText
+//   gogrep.Walk(X, ...)      panics on a typed nil pointer
+//   Sizes.Sizeof(T)          asserts on untyped types
+//   obj.Parent()             nil object
+// plus the guards of nodeText, of the report location in handleMatch, of libdsl's SizeOf, of findSinkType's kv and the
+// definition of isAbsentNode.
+
+func init() {
+	subcommands["filtertotal"] = flt_filterTotal
+}
+
+func fltSubset(a, b map[string]bool) bool {
+	for k := range a {
+		if !b[k] {
+			return false
+		}
+	}
+	return true
+}
+
+func fltMatches(re *regexp.Regexp, s string) map[string]bool {
+	out := map[string]bool{}
+	for _, m := range re.FindAllStringSubmatch(s, -1) {
+		out[m[1]] = true
+	}
+	return out
+}
+
+var (
+	fltPosRe    = regexp.MustCompile(`(\w+(?:\([^()]*\))?)\.(?:Pos|End)\(\)`)
+	fltAbsentRe = regexp.MustCompile(`isAbsentNode\((\w+)\)`)
+	fltWalkRe   = regexp.MustCompile(`gogrep\.Walk\(([\w.()]+),`)
+	fltSizeofRe = regexp.MustCompile(`\.Sizeof\((\w+)\)`)
+	fltKnownRe  = regexp.MustCompile(`hasKnownSize\((\w+)\)`)
+	fltParentRe = regexp.MustCompile(`(\w+)\.Parent\(\)`)
+	fltNilChkRe = regexp.MustCompile(`(\w+) == nil`)
+)
+
+func flt_filterTotal(repo string, _ []string) (string, error) {
+	t := &fltTr{fset: token.NewFileSet()}
+	ff, err := flt_parseFile(t.fset, repo+"/ruleguard/filters.go")
+	if err != nil {
+		return "", err
+	}
+	var sb strings.Builder
+	sb.WriteString("(* GENERATED by go2coq filtertotal from ruleguard/{filters.go,runner.go,libdsl.go,utils.go} -- do not edit; regenerated on every check. *)\n")
+	sb.WriteString("From Coq Require Import List Bool String.\nFrom RG.Filters Require Import Totality.\nImport ListNotations.\nLocal Open Scope string_scope.\n\n")
+	sb.WriteString("(* per closure: uses Pos()/End() of a capture, every such use guarded by isAbsentNode; uses nodeText; uses gogrep.Walk, guarded;\n   uses Sizeof, every use guarded by hasKnownSize; dereferences a types.Object via Parent(), guarded by a nil check *)\n")
+	sb.WriteString("Definition gen_access : list (string * access_info) := [\n")
+	var rows []string
+	add := func(name string, fl *ast.FuncLit) {
+		body := t.text(fl.Body)
+		pos := fltMatches(fltPosRe, body)
+		// positions of the file set / of the filter params are not captures
+		for k := range pos {
+			if strings.HasPrefix(k, "params") && !strings.Contains(k, "subNode") && !strings.Contains(k, "subExpr") {
+				delete(pos, k)
+			}
+		}
+		guards := fltMatches(fltAbsentRe, body)
+		walk := fltMatches(fltWalkRe, body)
+		sizeof := fltMatches(fltSizeofRe, body)
+		known := fltMatches(fltKnownRe, body)
+		parent := fltMatches(fltParentRe, body)
+		delete(parent, "nodePath") // nodePath.Parent() is the ancestor stack (total), not a types.Object
+		nilchk := fltMatches(fltNilChkRe, body)
+		rows = append(rows, fmt.Sprintf("  (%s, {| ac_pos := %s; ac_pos_guarded := %s; ac_text := %s; ac_walk := %s; ac_walk_guarded := %s; ac_sizeof := %s; ac_sizeof_guarded := %s; ac_objderef := %s; ac_objderef_guarded := %s |})",
+			flt_coqStr(name), flt_coqBool(len(pos) > 0), flt_coqBool(len(pos) > 0 && fltSubset(pos, guards)), flt_coqBool(strings.Contains(body, "params.nodeText(")),
+			flt_coqBool(len(walk) > 0), flt_coqBool(len(walk) > 0 && fltSubset(walk, guards)),
+			flt_coqBool(len(sizeof) > 0), flt_coqBool(len(sizeof) > 0 && fltSubset(sizeof, known)),
+			flt_coqBool(len(parent) > 0), flt_coqBool(len(parent) > 0 && fltSubset(parent, nilchk))))
+	}
+	n := 0
+	for _, d := range ff.Decls {
+		fd, ok := d.(*ast.FuncDecl)
+		if !ok || fd.Body == nil || fd.Recv != nil || !strings.HasPrefix(fd.Name.Name, "make") || !strings.HasSuffix(fd.Name.Name, "Filter") {
+			continue
+		}
+		if fd.Type.Results == nil || len(fd.Type.Results.List) != 1 || t.text(fd.Type.Results.List[0].Type) != "filterFunc" {
+			continue
+		}
+		// every closure literal inside the constructor
+		k := 0
+		ast.Inspect(fd.Body, func(nd ast.Node) bool {
+			if fl, ok := nd.(*ast.FuncLit); ok && t.text(fl.Type) == "func(params *filterParams) matchFilterResult" {
+				name := fd.Name.Name
+				if k > 0 {
+					name = fmt.Sprintf("%s#%d", name, k)
+				}
+				add(name, fl)
+				k++
+				n++
+				return false
+			}
+			return true
+		})
+	}
+	if n < 30 {
+		return "", fmt.Errorf("filters.go: only %d filter closures found", n)
+	}
+	sb.WriteString(strings.Join(rows, ";\n"))
+	sb.WriteString("\n].\n\n")
+
+	// runner.go
+	rf, err := flt_parseFile(t.fset, repo+"/ruleguard/runner.go")
+	if err != nil {
+		return "", err
+	}
+	nt := flt_findMethod(rf, "nodeText")
+	if nt == nil || len(nt.Body.List) == 0 {
+		return "", fmt.Errorf("rulesRunner.nodeText not found")
+	}
+	ntGuard := t.text(nt.Body.List[0]) == "if isAbsentNode(n) { return nil }"
+	// any Pos()/End() in nodeText after the guard is on n
+	fmt.Fprintf(&sb, "(* runner.go: nodeText starts with `if isAbsentNode(n) { return nil }` *)\nDefinition gen_nodetext_guarded : bool := %s.\n", flt_coqBool(ntGuard))
+	hm := flt_findMethod(rf, "handleMatch")
+	if hm == nil {
+		return "", fmt.Errorf("rulesRunner.handleMatch not found")
+	}
+	hmText := t.text(hm.Body)
+	locGuard := strings.Contains(hmText, "if rule.location != \"\" { if loc, _ := m.CapturedByName(rule.location); !isAbsentNode(loc) { node = loc } }")
+	if !strings.Contains(hmText, "node := m.Node") || !strings.Contains(hmText, "rr.reportData.Node = node") {
+		return "", t.errf(hm, "handleMatch: report node selection has an unknown shape")
+	}
+	fmt.Fprintf(&sb, "(* runner.go: handleMatch reports At() a capture only when it is not absent, otherwise at the match *)\nDefinition gen_location_guarded : bool := %s.\n", flt_coqBool(locGuard))
+	// suggestion range comes from the same node
+	sugg := strings.Contains(hmText, "suggestion = &Suggestion{ Replacement: []byte(suggestText), From: node.Pos(), To: node.End(), }")
+	fmt.Fprintf(&sb, "Definition gen_suggestion_from_report_node : bool := %s.\n", flt_coqBool(sugg))
+	grp := strings.Contains(hmText, "info := GoRuleInfo{ Group: rule.group, Line: rule.line, }")
+	fmt.Fprintf(&sb, "Definition gen_report_group_from_rule : bool := %s.\n", flt_coqBool(grp))
+	rm := flt_findMethod(rf, "renderMessage")
+	if rm == nil {
+		return "", fmt.Errorf("rulesRunner.renderMessage not found")
+	}
+	rmText := t.text(rm.Body)
+	fmt.Fprintf(&sb, "(* runner.go: renderMessage drops typed-nil captures before interpolation and reads text only through nodeText *)\nDefinition gen_render_skips_typed_nil : bool := %s.\nDefinition gen_render_text_via_nodetext : bool := %s.\n",
+		flt_coqBool(strings.Contains(rmText, "if reflect.ValueOf(n).IsNil() && !gogrep.IsEmptyNodeSlice(n) { continue }")),
+		flt_coqBool(strings.Contains(rmText, "text := rr.nodeText(n)") && !fltPosRe.MatchString(rmText)))
+	// libdsl.go
+	lf, err := flt_parseFile(t.fset, repo+"/ruleguard/libdsl.go")
+	if err != nil {
+		return "", err
+	}
+	so := flt_findMethod(lf, "SizeOf")
+	if so == nil {
+		return "", fmt.Errorf("dslVarFilterContext.SizeOf not found")
+	}
+	soText := t.text(so.Body)
+	fmt.Fprintf(&sb, "(* libdsl.go: VarFilterContext.SizeOf asks Sizeof only for types with a known size *)\nDefinition gen_libdsl_sizeof_guarded : bool := %s.\n",
+		flt_coqBool(strings.Contains(soText, "if !hasKnownSize(typ) {") && strings.Index(soText, "hasKnownSize(typ)") < strings.Index(soText, ".Sizeof(typ)")))
+	// findSinkType: kv dereferenced only after a nil check in the Struct case
+	fst := flt_findFunc(ff, "findSinkType")
+	if fst == nil {
+		return "", fmt.Errorf("findSinkType not found")
+	}
+	kvOK := false
+	ast.Inspect(fst.Body, func(nd ast.Node) bool {
+		if cc, ok := nd.(*ast.CaseClause); ok && len(cc.List) == 1 && t.text(cc.List[0]) == "*types.Struct" {
+			txt := t.stmtsText(cc.Body)
+			i, j := strings.Index(txt, "if kv == nil {"), strings.Index(txt, "kv.Key")
+			kvOK = i >= 0 && j > i
+		}
+		return true
+	})
+	fmt.Fprintf(&sb, "(* filters.go: findSinkType checks kv == nil before kv.Key in the struct case *)\nDefinition gen_sinktype_kv_guarded : bool := %s.\n", flt_coqBool(kvOK))
+	// utils.go: isAbsentNode
+	uf, err := flt_parseFile(t.fset, repo+"/ruleguard/utils.go")
+	if err != nil {
+		return "", err
+	}
+	ab := flt_findFunc(uf, "isAbsentNode")
+	var checks []string
+	if ab != nil {
+		txt := t.stmtsText(ab.Body.List)
+		if strings.Contains(txt, "n == nil") {
+			checks = append(checks, "nil")
+		}
+		if strings.Contains(txt, "gogrep.IsEmptyNodeSlice(n)") {
+			checks = append(checks, "empty-slice")
+		}
+		if strings.Contains(txt, "v.Kind() == reflect.Ptr && v.IsNil()") {
+			checks = append(checks, "typed-nil")
+		}
+	}
+	hk := flt_findFunc(uf, "hasKnownSize")
+	hkOK := hk != nil && strings.Contains(t.stmtsText(hk.Body.List), "isTypeParam(typ)") && strings.Contains(t.stmtsText(hk.Body.List), "basic.Info()&types.IsUntyped != 0")
+	sb.WriteString("(* utils.go: what isAbsentNode recognises; hasKnownSize excludes type parameters and untyped types *)\nDefinition gen_absent_checks : list string := [")
+	for i, c := range checks {
+		if i > 0 {
+			sb.WriteString("; ")
+		}
+		sb.WriteString(flt_coqStr(c))
+	}
+	fmt.Fprintf(&sb, "].\nDefinition gen_has_known_size_ok : bool := %s.\n", flt_coqBool(hkOK))
+	return sb.String(), nil
+}
+
+func flt_findMethod(f *ast.File, name string) *ast.FuncDecl {
+	for _, d := range f.Decls {
+		if fd, ok := d.(*ast.FuncDecl); ok && fd.Recv != nil && fd.Name.Name == name && fd.Body != nil {
+			return fd
+		}
+	}
+	return nil
+}
